@@ -160,7 +160,10 @@ fit_spline_1d(std::ranges::sized_range auto && dt_r, std::ranges::sized_range au
     // No optimization, solve directly
     assert(N_eq == N_coef);
     Eigen::SparseLU<decltype(A)> lu(A);
-    return lu.solve(b);
+    Eigen::VectorXd x = lu.solve(b);
+    // rows of A scale like dt^-d: refine the solution so that the constraints hold to working precision
+    for (auto it = 0u; it < 2; ++it) { x += lu.solve(b - A * x); }
+    return x;
   } else {
     static_assert(K >= SS::OptDeg, "K >= OptDeg");
 
@@ -220,7 +223,11 @@ fit_spline_1d(std::ranges::sized_range auto && dt_r, std::ranges::sized_range au
     // factorisation without pivoting loses the constraints for sub-second sampling. Use a pivoted LU.
     const Eigen::SparseMatrix<double> Hfull = H.template selfadjointView<Eigen::Lower>();
     const Eigen::SparseLU<Eigen::SparseMatrix<double>> lu(Hfull);
-    return lu.solve(rhs).head(N_coef);
+    Eigen::VectorXd sol = lu.solve(rhs);
+    // the blocks of the KKT matrix have very different scales: refine the solution so that the
+    // constraints hold to working precision
+    for (auto it = 0u; it < 2; ++it) { sol += lu.solve(rhs - Hfull * sol); }
+    return sol.head(N_coef);
   }
 }
 
